@@ -437,6 +437,14 @@ func (g *histGen) scenario() {
 		g.freshInput(r.Intn(6))
 	}
 	i := r.Intn(g.nin)
+	switch r.Intn(12) {
+	case 10:
+		g.scenarioSigOrder(i)
+		return
+	case 11:
+		g.scenarioFinalizedIssuance()
+		return
+	}
 	ht := r.Pick(1, 1, 1, 1, 3)
 	if ht != 1 {
 		g.emit(fmt.Sprintf("sighash %d %d", i, ht))
@@ -548,6 +556,51 @@ func (g *histGen) scenario() {
 			g.emit(fmt.Sprintf("sign %d 0 1 k0 n n", i))
 			g.finish(i)
 		}
+	}
+}
+
+// scenarioSigOrder: a multisig input carrying two partial signatures in either key order, then a
+// FinalizeAll that fails at or after it (a later input without signatures, or a signer outside the script):
+// the failing call must not touch the stored signatures, their order included.
+func (g *histGen) scenarioSigOrder(i int) {
+	r := g.r
+	g.emit(fmt.Sprintf("wutxo %d wsh.ms2 0", i))
+	keys := [][2]int{{0, 1}, {1, 0}, {2, 0}, {0, 2}, {2, 1}, {1, 2}}[r.Intn(6)]
+	g.emit(fmt.Sprintf("sign %d 0 1 k%d n ms2", i, keys[0]))
+	g.emit(fmt.Sprintf("sign %d 0 1 k%d n n", i, keys[1]))
+	if r.Chance(60) {
+		g.freshInput(r.Intn(6)) // a later input that cannot be finalized yet
+	}
+	g.emit([]string{"finalizeall", "finalizeall", "maybefinalizeall"}[r.Intn(3)])
+	if r.Chance(30) {
+		g.emit(fmt.Sprintf("finalize %d", i))
+	}
+}
+
+// scenarioFinalizedIssuance: an issuance on an input other than 0, that input signed (SIGHASH_NONE, so that
+// unblinded outputs do not block the signer) and finalized while the others are not, then a blinder call whose
+// issuance blinding arguments name that input (list position 0, input index >= 1): it must be refused.
+func (g *histGen) scenarioFinalizedIssuance() {
+	r := g.r
+	for g.nin < 2 {
+		if g.freshInput(r.Intn(6)) < 0 {
+			return
+		}
+	}
+	j := 1 + r.Intn(g.nin-1)
+	for k := 0; k < g.nin; k++ {
+		g.emit(fmt.Sprintf("wutxo %d wpkh0 0", k))
+	}
+	g.emit(fmt.Sprintf("issue %d 0 0 1000 %d c0 c0 %s", j, r.Pick(0, 5), b01(r.Bool())))
+	out := g.nout
+	g.nout += 2
+	g.emit(fmt.Sprintf("sighash %d 2", j))
+	g.emit(fmt.Sprintf("sign %d 0 2 k0 n n", j))
+	g.emit(fmt.Sprintf("finalize %d", j))
+	g.emit(fmt.Sprintf("blind %s 1 %d 1 %d 1 1 %d 0 1 1 1 1 0 %d", b01(r.Bool()), j, j, out, g.cnt%250))
+	if r.Chance(40) {
+		// the same call without issuance arguments is fine
+		g.emit(fmt.Sprintf("blind 1 1 %d 0 1 %d 0 1 1 1 1 0 %d", j, out, g.cnt%250))
 	}
 }
 
